@@ -35,9 +35,10 @@ Theorem C07_initial_guarded : forall p rho pcs c e x v,
 Proof. exact initial_correct. Qed.
 Print Assumptions C07_initial_guarded.
 
-(* final value: under the guards of findings `final-tail-empty` and `for-final-floor` *)
+(* final value: under the guard of finding `final-tail-empty` (finding `for-final-floor` was repaired in this round:
+   every range shape — step not dividing the span, negative step — is covered without a guard) *)
 Theorem C07_final_guarded : forall p rho pcs c e x v,
-  wf p = true -> guard_C07_final_tail p rho = true -> guard_C07_for_final_floor_path p rho = true ->
+  wf p = true -> guard_C07_final_tail p rho = true ->
   denote p rho = Some pcs -> dget c (final_expr p) = Some e -> p_end pcs c = Some x -> eval rho e = Some v -> v == x.
 Proof. exact final_correct. Qed.
 Print Assumptions C07_final_guarded.
@@ -73,31 +74,38 @@ Print Assumptions C07_initial_refuted.
 (* finding final-tail-empty: ConstantPT(1, {'A': 1}) @ ConstantPT(0, {'A': 5}) — final_values 5, ends on 1 *)
 Theorem C07_final_tail_refuted : exists p rho pcs c e x v,
   wf p = true /\ denote p rho = Some pcs /\ dget c (final_expr p) = Some e /\ p_end pcs c = Some x /\
-  eval rho e = Some v /\ ~ v == x /\ guard_C07_final_tail p rho = false /\ guard_C07_for_final_floor_path p rho = true.
+  eval rho e = Some v /\ ~ v == x /\ guard_C07_final_tail p rho = false.
 Proof. exact final_tail_refuted. Qed.
 Print Assumptions C07_final_tail_refuted.
 
-(* finding for-final-floor on a whole template: ForLoopPT(TablePT({'A': [(0,'i'), (1,'i+1','linear')]}), 'i', (0,5,2)) —
-   final_values 3, ends on 5 *)
-Theorem C07_final_floor_refuted : exists p rho pcs c e x v,
+(* the former finding for-final-floor on a whole template:
+   ForLoopPT(TablePT({'A': [(0,'i'), (1,'i+1','linear')]}), 'i', (0,5,2)) — the pre-repair final_values gave 3, the pulse
+   ends on 5; the repaired model gives 5 although the old guard (floor index = last index) is false on this input *)
+Theorem C07_final_floor_repaired : exists p rho pcs c e x v,
   wf p = true /\ denote p rho = Some pcs /\ dget c (final_expr p) = Some e /\ p_end pcs c = Some x /\
-  eval rho e = Some v /\ ~ v == x /\ guard_C07_final_tail p rho = true /\ guard_C07_for_final_floor_path p rho = false.
-Proof. exact final_floor_refuted. Qed.
-Print Assumptions C07_final_floor_refuted.
+  eval rho e = Some v /\ v == x /\ x == 5 /\ guard_C07_final_tail p rho = true /\ guard_C07_for_final_floor_path p rho = false.
+Proof. exact final_floor_repaired. Qed.
+Print Assumptions C07_final_floor_repaired.
 
 (* the guards are satisfiable by a non-trivial template: a for-loop over range(0,6,2) around a mapped table,
    three pieces, all hypotheses of the three theorems hold and all three symbolic values evaluate *)
 Theorem C07_guards_nonvacuous : exists p rho pcs c,
   wf p = true /\ guard_C07_initial_head p rho = true /\ guard_C07_final_tail p rho = true /\
-  guard_C07_for_final_floor_path p rho = true /\ denote p rho = Some pcs /\ (length pcs = 3)%nat /\
+  denote p rho = Some pcs /\ (length pcs = 3)%nat /\
   (exists e v, dget c (integral_expr p) = Some e /\ eval rho e = Some v) /\
   (exists e v x, dget c (initial_expr p) = Some e /\ eval rho e = Some v /\ p_at0 pcs c = Some x) /\
   (exists e v x, dget c (final_expr p) = Some e /\ eval rho e = Some v /\ p_end pcs c = Some x).
 Proof. exact guards_nonvacuous. Qed.
 Print Assumptions C07_guards_nonvacuous.
 
-(* the loop guard is exact: the substituted (floor) index is the last index IFF the step divides the span or the loop
-   has exactly one iteration (range(0,1,2)); so the finding class is: step does not divide the span AND >= 2 iterations *)
+(* the index final_values substitutes after the repair is the last element of every non-empty Python range *)
+Theorem C07_final_index_correct : forall a o s ks, py_range a o s = Some ks -> ks <> [] -> last_index a o s = last ks 0%Z.
+Proof. exact last_index_ok. Qed.
+Print Assumptions C07_final_index_correct.
+
+(* what the repair changed, exactly: the PRE-REPAIR (floor) index was the last index IFF the step divides the span or
+   the loop has exactly one iteration (range(0,1,2)); the defect class was: step does not divide the span AND >= 2
+   iterations (guard_C07_for_final_floor_path in Wf.v is this predicate along the structurally last path) *)
 Theorem C07_floor_guard_exact : forall a o s ks, py_range a o s = Some ks -> ks <> [] ->
   (floor_final_index a o s = last ks 0%Z <-> ((o - a) mod s = 0 \/ length ks = 1%nat)%Z).
 Proof. exact floor_final_index_exact. Qed.
@@ -150,41 +158,20 @@ Theorem C07_initial_partial_for : forall rho i start a e (f : Z -> Q) ks o s,
 Proof. exact for_initial_correct. Qed.
 Print Assumptions C07_initial_partial_for.
 
-(* ForLoopPT.final_values as written (floor division) — refuted, then proved under the guard "step divides the span" *)
-Theorem C07_final_for_refuted :
-  exists rho i start stop step e a o s ks (f : Z -> Q),
-    int_val rho start a /\ int_val rho stop o /\ int_val rho step s /\ py_range a o s = Some ks /\ ks <> [] /\
-    body_rule rho i e ks f /\
-    ~ ev_eq rho (ELet [(i, loop_final_index start stop step)] e) (f (last ks 0%Z)).
-Proof. exact for_final_refuted. Qed.
-Print Assumptions C07_final_for_refuted.
+(* ForLoopPT.final_values (repaired form): the substituted index is the last iteration's — every non-empty range *)
+Theorem C07_final_partial_for : forall rho i start stop step e a o s ks (f : Z -> Q),
+  int_val rho start a -> int_val rho stop o -> int_val rho step s ->
+  py_range a o s = Some ks -> ks <> [] ->
+  body_rule rho i e ks f ->
+  ev_eq rho (ELet [(i, loop_final_index start stop step)] e) (f (last ks 0%Z)).
+Proof. exact for_final_correct. Qed.
+Print Assumptions C07_final_partial_for.
 
+(* the pre-repair index was wrong also for negative steps: range(5,0,-2) -> 3 instead of 1 *)
 Theorem C07_final_index_refuted_negative_step :
   exists a o s ks, (s < 0)%Z /\ py_range a o s = Some ks /\ ks <> [] /\ floor_final_index a o s <> last ks 0%Z.
 Proof. exact floor_final_index_wrong_neg. Qed.
 Print Assumptions C07_final_index_refuted_negative_step.
-
-Definition guard_C07_for_final_floor (a o s : Z) : bool := ((o - a) mod s =? 0)%Z.
-
-Theorem C07_final_partial_for_guarded : forall rho i start stop step e a o s ks (f : Z -> Q),
-  int_val rho start a -> int_val rho stop o -> int_val rho step s ->
-  py_range a o s = Some ks -> ks <> [] -> guard_C07_for_final_floor a o s = true ->
-  body_rule rho i e ks f ->
-  ev_eq rho (ELet [(i, loop_final_index start stop step)] e) (f (last ks 0%Z)).
-Proof.
-  intros rho i start stop step e a o s ks f Ha Ho Hs Hr Hne Hg Hb.
-  eapply for_final_correct_guarded; eauto. unfold guard_C07_for_final_floor in Hg. apply Z.eqb_eq. exact Hg.
-Qed.
-Print Assumptions C07_final_partial_for_guarded.
-
-Theorem C07_final_for_guard_nonvacuous :
-  exists rho i start stop step e a o s ks (f : Z -> Q),
-    int_val rho start a /\ int_val rho stop o /\ int_val rho step s /\ py_range a o s = Some ks /\ ks <> [] /\
-    ((o - a) mod s = 0)%Z /\
-    body_rule rho i e ks f /\
-    ev_eq rho (ELet [(i, loop_final_index start stop step)] e) (f (last ks 0%Z)).
-Proof. exact for_final_guard_satisfiable. Qed.
-Print Assumptions C07_final_for_guard_nonvacuous.
 
 (* ---- atoms ---- *)
 (* TablePT: integral[c] (TableEntry._sequence_integral over pre entry + entries + post entry) is the exact integral of
